@@ -86,7 +86,7 @@ CHECKS = {
     "C14": ("model_checking",
             "TLA+ arbitrary-precision oracle (XrBigInt: limb arithmetic + defining relations) as trace acceptor over integer-builtin calls; TLC checks the limb arithmetic itself (MC_XrBigInt)",
             "Every integer builtin result (add, sub, mul, neg, abs, cmp and the six relations, pow, floor division with floored mod, ceil division, bitwise and/or/xor, gcd, lcm, factorial, binomial, digits in 4 bases, to_str/to_int, literal vs to_int) for operand pairs across the 31/63/64/127-bit boundaries and random 1-400-bit values is an event that TLC accepts only if it is the exact result (recomputed in base-10^4 limbs or checked by the defining relation), if the Short/Long representation is canonical, and if values reached along two routes are equal, hash equally and print equally.",
-            "Not covered: int<->float conversions and `div` (no reals in TLC), multinomial, combinatorial index functions; gcd maximality relies on the interpreter's own gcd of the cofactors.",
+            "int -> float -> int (floor / ceil / trunc) is checked on integers a double holds exactly (powers of two around 2^31 / 2^53 / 2^63 / 2^64 / 2^1023 and multiples); inexact float conversions and `div` are not (no reals in TLC), nor multinomial and the combinatorial index functions; gcd maximality relies on the interpreter's own gcd of the cofactors.",
             "DESIGN.md 6 C14"),
     "C19": ("model_checking",
             "TLA+ order/text/format semantics (XrOrder, laws checked by TLC) and stable-sort reference (XrSort) replayed; failing-comparator sweeps validated by XrRuntime",
